@@ -988,8 +988,10 @@ func init() {
 	ext["(*sync.Mutex).Lock"] = func(fr *frame, a []value) value { fr.i.mutexLock(a[0].(*value)); return nil }
 	ext["(*sync.Mutex).Unlock"] = func(fr *frame, a []value) value { fr.i.mutexUnlock(a[0].(*value)); return nil }
 	ext["(*sync.Mutex).TryLock"] = func(fr *frame, a []value) value { return fr.i.mutexTryLock(a[0].(*value)) }
-	ext["(*sync.RWMutex).Lock"] = ext["(*sync.Mutex).Lock"]
-	ext["(*sync.RWMutex).Unlock"] = ext["(*sync.Mutex).Unlock"]
+	ext["(*sync.RWMutex).Lock"] = func(fr *frame, a []value) value { fr.i.rwLock(a[0].(*value), false); return nil }
+	ext["(*sync.RWMutex).Unlock"] = func(fr *frame, a []value) value { fr.i.rwUnlock(a[0].(*value), false); return nil }
+	ext["(*sync.RWMutex).RLock"] = func(fr *frame, a []value) value { fr.i.rwLock(a[0].(*value), true); return nil }
+	ext["(*sync.RWMutex).RUnlock"] = func(fr *frame, a []value) value { fr.i.rwUnlock(a[0].(*value), true); return nil }
 	ext["(*sync.Pool).Get"] = func(fr *frame, a []value) value { return fr.i.poolGet(fr, a[0].(*value)) }
 	ext["(*sync.Pool).Put"] = func(fr *frame, a []value) value { fr.i.poolPut(a[0].(*value), a[1]); return nil }
 	ext["(*sync/atomic.Pointer[T]).Load"] = func(fr *frame, a []value) value { return fr.i.atomicLoad(a[0].(*value)) }
